@@ -697,18 +697,21 @@ class ODataParser(Parser):
         Returns:
             A list of all identifiers in the ``attr``
         """
-        if isinstance(attr.owner, ast.Identifier):
-            exploded = [attr.owner.name]
-        elif isinstance(attr.owner, ast.Attribute):
-            exploded = self._explode_attr(attr.owner)
-        else:
-            raise NotImplementedError()
-
-        if isinstance(attr.attr, str):
-            exploded.append(attr.attr)
-        elif isinstance(attr.attr, ast.Attribute):
-            exploded.extend(self._explode_attr(attr.attr))
-        else:
-            raise NotImplementedError
+        # Iterative on purpose: the recursion depth would otherwise grow with
+        # the number of path segments in the query.
+        exploded: List[str] = []
+        stack: List[Union[ast._Node, str]] = [attr]
+        while stack:
+            node = stack.pop()
+            if isinstance(node, str):
+                exploded.append(node)
+            elif isinstance(node, ast.Identifier):
+                exploded.append(node.name)
+            elif isinstance(node, ast.Attribute):
+                # Owner first, then the attribute itself:
+                stack.append(node.attr)
+                stack.append(node.owner)
+            else:
+                raise NotImplementedError()
 
         return exploded
